@@ -225,7 +225,7 @@ class Analyzer:
                 if isinstance(t, ast.Name):
                     org = env.get(t.id, SHARED if t.id in self.module_globals else FRESH)
                     # x += y mutates in place when x is an array / table: the name must be fresh
-                    self.sites.append(Site(fname, st.lineno, ast.unparse(st)[:120], org, "augmented-assignment"))
+                    self.sites.append(Site(fname, st.lineno, ast.unparse(st)[:120], org, "augmented-assignment", t.id))
                 else:
                     self._store_target(fname, st, t, env, FRESH)
             elif isinstance(st, ast.If):
